@@ -165,7 +165,7 @@ func concPackage(u *vk.Unit, p *reg.Package, meta Meta, pkg string) {
 	run := func(goroutines, procs int) ([]outcome, []string, error) {
 		var mu sync.Mutex
 		var received []string
-		call := func(ctx context.Context, iface, method string, args []any) ([]any, error) {
+		call := securityAware(p, func(ctx context.Context, iface, method string, args []any) ([]any, error) {
 			if iface != reg.IfaceHandler {
 				return nil, nil
 			}
@@ -178,14 +178,14 @@ func concPackage(u *vk.Unit, p *reg.Package, meta Meta, pkg string) {
 				return nil, nil
 			}
 			return []any{pool[hashStr(r)%uint64(len(pool))]}, nil
-		}
+		})
 		srv, err := p.NewServer(reg.ServerConfig{Call: call})
 		if err != nil {
 			return nil, nil, err
 		}
 		ts := httptest.NewServer(srv)
 		defer ts.Close()
-		cli, err := p.NewClient(ts.URL, reg.ClientConfig{HTTPClient: ts.Client()})
+		cli, err := p.NewClient(ts.URL, reg.ClientConfig{Call: call, HTTPClient: ts.Client()})
 		if err != nil {
 			return nil, nil, err
 		}
